@@ -66,6 +66,11 @@ def cases(tier, seed):
                                                ["root", "root_inv", "diagonalization"]):
         for budget in ("full", "half"):
             out.append({"k": "consumer", "fam": fam, "n": n, "b": b, "method": method, "budget": budget})
+    # rank-deficient matrices in single precision: the jittered T has eigenvalues of both signs around zero, which the post-processing
+    # masks (roots and diagonalizations only: the inverse is undefined)
+    for n, b, method in itertools.product([3, 5, 8], [[], [2]], ["root", "diagonalization"]):
+        for dtn in ("f32", "f64"):
+            out.append({"k": "consumer", "fam": "rankdef", "n": n, "b": b, "method": method, "budget": "full", "dt": dtn})
     return out
 
 
@@ -175,8 +180,13 @@ def run_consumer(case, feat, key):
     """lanczos-based root / inverse root / diagonalization: orthogonal compression of A onto the space they span"""
     n = case["n"]
     b = tuple(case["b"])
-    A, lam = RA.spd(case["fam"], n, 100.0, 1.0, f"C{case['fam']}{n}", env.SEED, b)
-    op = linear_operator.operators.DenseLinearOperator(A)
+    if case["fam"] == "rankdef":
+        A = matrix("rankdef", n, b, env.SEED)
+    else:
+        A, lam = RA.spd(case["fam"], n, 100.0, 1.0, f"C{case['fam']}{n}", env.SEED, b)
+    cdt = DTS[case.get("dt", "f64")]
+    op = linear_operator.operators.DenseLinearOperator(A.to(cdt))
+    A = A.to(cdt).double()
     size = n if case["budget"] == "full" else max(1, n // 2)
     env.set_settings({"max_root_decomposition_size": size, "max_cholesky_size": 0})
     method = case["method"]
@@ -202,6 +212,7 @@ def run_consumer(case, feat, key):
         Rm = got
     if not torch.isfinite(Rm).all():
         return result(VIOL, kind="nan", msg=f"{method}: NaN/Inf", feat=feat, keys=[key])
+    Rm = Rm.double()
     M = Rm @ Rm.mT
     # projector onto span(R)
     U, S, _ = torch.linalg.svd(Rm, full_matrices=False)
@@ -209,14 +220,14 @@ def run_consumer(case, feat, key):
     Uk = U * keep.unsqueeze(-2)
     Pi = Uk @ Uk.mT
     rank = int(keep.sum(-1).min())
-    distinct = case["fam"] != "repeated"
+    distinct = case["fam"] not in ("repeated", "rankdef")
     scale = target.abs().amax().item()
     if method == "root_inv":
         # inverse of the compression of A on the subspace: (Pi A Pi)^+
         comp = torch.linalg.pinv(Pi @ A @ Pi, hermitian=True, rtol=1e-10)
     else:
         comp = Pi @ target @ Pi
-    tol = 2e-4 * scale * (100.0 if method == "root_inv" else 1.0)
+    tol = (2e-4 if cdt == torch.float64 else 5e-3) * scale * (100.0 if method == "root_inv" else 1.0)
     d = (M - comp).abs().amax().item()
     if d > tol:
         return result(VIOL, kind="compression", msg=f"{method}: R R^T differs from the orthogonal compression onto span(R) by {d:.3g} (tol {tol:.3g}, rank {rank})", feat=feat, keys=[key])
